@@ -20,6 +20,8 @@ Decided clauses (each a necessary condition of the statement, named here):
          choices, raises (shared with C06.d)
   C17.g  parser-wide settings that select a level's sources (default_env, parser_mode)
          are pushed down through the property, so every level receives them
+  C17.h  configurations folded in before the deciding source is known (default config
+         files, --cfg items) do not pick a subcommand
 Not decided: the resulting namespace for all subcommand trees and input mixes (a
 function of configuration contents); interaction with default config files.
 """
@@ -298,6 +300,44 @@ def run(ctx: Ctx) -> int:
         early = [r for r in walk_local(gs) if isinstance(r, ast.Return) and r.lineno < rz[0].lineno and any(ast.unparse(t) == "fail_no_subcommand" and pol for t, pol in guard_chain(r, stop=gs))]
         ok = not extra and any("_name_parser_map" in ast.unparse(t) for t in pos) and all(any("is None" in ast.unparse(t) and "_required" in ast.unparse(t) and pol for t, pol in guard_chain(r, stop=gs)) for r in early)
     ctx.oblige("C17.f", ok, rz[0] if rz else gs, "when a decision is asked for, a missing required subcommand or a name outside the choices raises; only 'nothing given, nothing required' returns without a subcommand" if ok else "a required subcommand that cannot be determined (or an unknown name) is no longer an error on every path", fn=gs, construct="required / unknown raises")
+
+    # ---------------- C17.h intermediate folds do not decide ---------------------------------------------------
+    # a configuration that is folded in BEFORE the command line / object has been seen (a default config file, a
+    # --cfg item) must not pick a subcommand: picking deletes the other sections, and the source that names the
+    # subcommand comes later.  Such folds call _parse_common with env=False, defaults=False; they have to pass
+    # fail_no_subcommand=False and run under not_single_subcommand() (which switches the fallback off).
+    from .util import enclosing_withs
+
+    n_fold = 0
+    for fq, fn in ctx.repo.all_funcs():
+        for c in calls_in(fn):
+            if call_leaf(c) != "_parse_common":
+                continue
+            kw = {k.arg: k.value for k in c.keywords if k.arg}
+            if not all(isinstance(kw.get(x), ast.Constant) and kw[x].value is False for x in ("env", "defaults")):
+                continue
+            n_fold += 1
+            fns = kw.get("fail_no_subcommand")
+            ok_f = isinstance(fns, ast.Constant) and fns.value is False
+            ok_c = any(isinstance(it.context_expr, ast.Call) and call_leaf(it.context_expr) == "not_single_subcommand" for _, it in enclosing_withs(c, stop=fn))
+            ok = ok_f and ok_c
+            ctx.oblige(
+                "C17.h",
+                ok,
+                c,
+                "this intermediate fold leaves the choice of subcommand to the final parse (fail_no_subcommand=False under not_single_subcommand())" if ok else "this intermediate fold (env=False, defaults=False) picks a subcommand: with sections for several subcommands in the folded configuration the first one is chosen and the others are deleted before the command line / object names the subcommand - the values the file holds for the subcommand actually chosen are lost",
+                fn=fn,
+            )
+    ctx.floor("C17.h-intermediate-folds", n_fold, 1)
+    # the other intermediate fold: ActionConfigFile.apply_config parses the item with _fail_no_subcommand False under the same context
+    acf = ctx.func("_actions:ActionConfigFile.apply_config")
+    kwd = [s for s in walk_local(acf) if isinstance(s, ast.Assign) and isinstance(s.value, ast.Dict) and any(const_str(k) == "_fail_no_subcommand" for k in s.value.keys)]
+    ok = bool(kwd)
+    if ok:
+        dv = dict(zip([const_str(k) for k in kwd[0].value.keys], kwd[0].value.values))
+        ok = isinstance(dv["_fail_no_subcommand"], ast.Constant) and dv["_fail_no_subcommand"].value is False
+        ok = ok and any(isinstance(it.context_expr, ast.Call) and call_leaf(it.context_expr) == "not_single_subcommand" for w in walk_local(acf) if isinstance(w, ast.With) for it in w.items)
+    ctx.oblige("C17.h", ok, kwd[0] if kwd else acf, "a --cfg item is parsed without deciding the subcommand" if ok else "a --cfg item decides the subcommand while it is applied (fail_no_subcommand / not_single_subcommand changed)", fn=acf, construct="cfg item does not decide")
 
     # ---------------- C17.g settings that select sources reach every level --------------------------------------
     # a parser-wide setting (default_env, parser_mode) is pushed to the sub-parsers by its property setter; the
